@@ -9,7 +9,15 @@ if not os.path.isdir(wt):
     subprocess.run(["git", "-C", "/repo", "worktree", "add", "--detach", wt, "HEAD"], check=True, stdout=subprocess.DEVNULL, stderr=subprocess.DEVNULL)
 os.makedirs(wt + "-scratch", exist_ok=True)
 t = open("/verif/tools/mutant_prompt.txt").read()
-if len(sys.argv) > 3:
+if len(sys.argv) > 3 and sys.argv[3] == "w3":
+    t = t.replace("Prefer changes in DIFFERENT parts", "This is a late round: simple off-by-one changes of a single length or boundary test have been tried already. "
+                  "Look for defects of a DIFFERENT nature: state carried across calls or between objects (caches, flags, buffers, counters not reset or "
+                  "shared), behaviour that depends on the TYPE or layout of an argument (bytes vs bytearray vs memoryview, alignment, int vs Integer, str vs "
+                  "bytes, another curve or key type than expected), two conditions that must hold at once, interaction between two modules or two code "
+                  "sites that each look fine alone, rarely used parameters, algorithms or entry points, error paths that leave an object half-updated, and "
+                  "(where the property involves native code) changes in src/*.c. Never use pkill/killall or kill processes you did not start yourself. "
+                  "Use at most 4 CPU cores at a time. Prefer changes in DIFFERENT parts")
+elif len(sys.argv) > 3:
     t = t.replace("Prefer changes in DIFFERENT parts", "At least one of the changes must break one of the LESS OBVIOUS obligations of the property "
                   "(the later clauses of the statement, the unusual entry points, rarely used parameters or algorithms), not its headline case. "
                   "Never use pkill/killall or kill processes you did not start yourself. Prefer changes in DIFFERENT parts")
